@@ -1,4 +1,4 @@
-import HdVerif.Proofs.SegReadCombine
+import HdVerif.Proofs.SegReadOrder
 import HdVerif.Proofs.SegMeta
 /-! # C02  Segment selection, ordering, combining and relabelling are exact
 
@@ -255,6 +255,120 @@ theorem combined_value_cases (st : Stored) (segs : List Nat) (relabel : Bool) (k
     · by_cases hss : s' = s
       · rw [hv', hss]
       · exact absurd ⟨hcv', hcv⟩ (hno s' hs' s hs hss i)
+
+/-- the combined value is determined by the stored frames and the request alone … -/
+theorem combined_value_unique (st : Stored) (segs : List Nat) (relabel : Bool) (k i : Nat) (v v' : Int)
+    (hpos : ∀ s ∈ segs, 0 < s) (h : IsCombinedValue st segs relabel k i v)
+    (h' : IsCombinedValue st segs relabel k i v') : v = v' :=
+  isCombinedValue_unique st segs relabel k i v v' hpos h h'
+
+/-- … so **the order in which the query delivers the rows of one output frame does not matter**: the combination
+loop returns the same array, or the same refusal, for every permutation of those rows (the query only says
+`ORDER BY F.OutputFrameIndex`). -/
+theorem combine_order_independent (st : Stored) (rq : Req) (d : DType) (wf : WfStack st) (hnd : rq.segs.Nodup)
+    (hsub : ∀ s ∈ rq.segs, s ∈ st.segNums) (hbin : AllBinary st) (hc : rq.combine = true)
+    (hcap : ceiling st rq ≤ d.maxVal) (k : Nat) (rows' : List (SFrame × Nat))
+    (hperm : rows'.Perm (joinRows st.frames (chanTable rq.segs (remapValues rq.segs true rq.relabel)) k)) :
+    combineRow st.type st.mfv rq.skipOverlap d st.npix rows' =
+      combineRow st.type st.mfv rq.skipOverlap d st.npix
+        (joinRows st.frames (chanTable rq.segs (remapValues rq.segs true rq.relabel)) k) :=
+  combineRow_perm st wf rq.segs rq.relabel hnd k hsub hbin d
+    (fun s hs => Int.le_trans (outVal_le_ceiling st rq hc s hs) hcap) rq.skipOverlap rows' hperm
+
+/-- **Truly fractional frames cannot be combined**: when a frame that the combined read uses (requested stack value,
+requested segment) holds a value other than 0 and MaximumFractionalValue, the read is refused. -/
+theorem fractional_nonbinary_combine_refused (st : Stored) (rq : Req) (hty : st.type = .fractional)
+    (hc : rq.combine = true) (hnd : rq.segs.Nodup) (f : SFrame) (hf : f ∈ st.frames) (hk : f.key ∈ rq.keys)
+    (hs : f.seg ∈ rq.segs) (p : Nat) (hp : p ∈ f.pix) (h0 : p ≠ 0) (h1 : p ≠ st.mfv) :
+    ∃ e, readCore st rq = .error e := by
+  by_cases hsub : ∀ s ∈ rq.segs, s ∈ st.segNums
+  · rw [readCore_eq st rq hsub]
+    by_cases hcap : ceiling st rq > (chosenDtype st rq).maxVal
+    · exact ⟨.value, by simp [hcap]⟩
+    · simp only [hcap, ↓reduceIte, hty]
+      have hw : willRescale st rq = false := by unfold willRescale; simp [hc]
+      rw [hw]
+      by_cases hr : rq.rescale = true
+      · rw [stackRead_combined_head st rq _ hc hnd (fun _ => hr)]
+        have hrow : (f, outValNat rq.segs rq.relabel f.seg) ∈
+            joinRows st.frames (chanTable rq.segs (remapValues rq.segs true rq.relabel)) f.key := by
+          rw [mem_joinRows]
+          exact ⟨hf, rfl, (mem_chan_combined rq.segs rq.relabel hnd _ _).mpr ⟨hs, outValNat_eq _ _ _ hs⟩⟩
+        obtain ⟨e, he⟩ := mapM_error_of_mem (fun k => combineRow st.type st.mfv rq.skipOverlap (chosenDtype st rq) st.npix
+            (joinRows st.frames (chanTable rq.segs (remapValues rq.segs true rq.relabel)) k)) rq.keys
+          ⟨f.key, hk, by
+            unfold combineRow
+            rw [hty]
+            exact foldlM_error_of_mem _ _ _ ⟨_, hrow, fun a => combineStep_nonbinary st.mfv _ _ a _ ⟨p, hp, h0, h1⟩⟩⟩
+        exact ⟨e, by rw [he]; rfl⟩
+      · have hr' : rq.rescale = false := by simpa using hr
+        unfold stackRead
+        rw [stackDecision_eq]
+        exact ⟨.value, by simp [hc, hr', hty, bind, Except.bind]⟩
+  · have : ∃ s ∈ rq.segs, s ∉ st.segNums := by
+      apply Classical.byContradiction
+      intro hne
+      apply hsub
+      intro s hs'
+      apply Classical.byContradiction
+      intro hn
+      exact hne ⟨s, hs', hn⟩
+    obtain ⟨s, hs', hn⟩ := this
+    unfold readCore
+    have : (rq.segs.all fun s => st.segNums.contains s) = false := by
+      rw [List.all_eq_false]
+      exact ⟨s, hs', by simpa using hn⟩
+    exact ⟨.value, by simp only [this, Bool.not_false, ↓reduceIte]⟩
+
+/-! ## Construction: stacked mask → label map -/
+
+/-- **Combining at construction** (`_combine_segments` + the segment-number look-up): for a pixel of a stacked 0/1
+mask in which at most one of the described segments is set, the stored label is accepted, and extracting segment
+`nums[c]` from it gives back exactly channel `c` — for every number of segments (the single-channel shortcut
+included) and for sparse numbers. -/
+theorem combine_at_construction (nums chans : List Nat) (hlen : chans.length = nums.length)
+    (hbin : ∀ c ∈ chans, c = 0 ∨ c = 1) (hno : ∀ i j : Nat, chans[i]? = some 1 → chans[j]? = some 1 → i = j)
+    (hnd : nums.Nodup) (hpos : ∀ s ∈ nums, 0 < s) :
+    ∃ v, labelPixel nums chans = .ok v ∧ ∀ c (hc : c < nums.length), (v = nums[c] ↔ chans[c]? = some 1) := by
+  by_cases hex : ∃ j : Nat, chans[j]? = some 1
+  · obtain ⟨j, hj⟩ := hex
+    have hjl : j < nums.length := by rw [← hlen]; exact (List.getElem?_eq_some_iff.mp hj).1
+    have hcp := combinePixel_one chans hbin j hj (fun i hi => hno i j hi hj)
+    refine ⟨nums[j], ?_, ?_⟩
+    · unfold labelPixel
+      rw [hcp, List.getElem?_cons_succ, List.getElem?_eq_getElem hjl]
+    · intro c hc
+      constructor
+      · intro h
+        have : j = c := by
+          apply Decidable.byContradiction
+          intro hne
+          rcases Nat.lt_or_gt_of_ne hne with hlt | hgt
+          · exact (List.pairwise_iff_getElem.mp hnd) j c hjl hc hlt h
+          · exact (List.pairwise_iff_getElem.mp hnd) c j hc hjl hgt h.symm
+        rw [← this]; exact hj
+      · intro h
+        have := hno c j h hj
+        subst this; rfl
+  · have hz : ∀ c ∈ chans, c = 0 := by
+      intro c hc
+      rcases hbin c hc with h | h
+      · exact h
+      · obtain ⟨i, hi⟩ := List.mem_iff_getElem?.mp hc
+        exact absurd ⟨i, by rw [hi, h]⟩ hex
+    refine ⟨0, ?_, ?_⟩
+    · unfold labelPixel
+      rw [combinePixel_zero chans hz]; rfl
+    · intro c hc
+      constructor
+      · intro h
+        have := hpos nums[c] (List.getElem_mem hc)
+        omega
+      · intro h
+        exact absurd ⟨c, h⟩ hex
+
+example : labelPixel [3, 700, 9] [0, 1, 0] = .ok 700 := by decide
+example : labelPixel [5] [1] = .ok 5 := by decide
 
 /-! ## Missing source frames -/
 
